@@ -118,7 +118,7 @@ Section Kernels.
     end.
 
   Definition find_closest_points (nodes : list kdnode) (cp : pt2) : kd_state :=
-    kd_search (S (length nodes)) nodes cp 0 (length nodes - 1) false (0, fdmax, []).
+    kd_search (length nodes) nodes cp 0 (length nodes - 1) false (0, fdmax, []).
 
   (** ** depth surfaces (objects/surface.cc) *)
   (** a triangle: three vertices (x, y, value) *)
